@@ -6,8 +6,9 @@
    normalised headers), [extract] is extractTarDirectory started in the directory that
    pushDir pre-creates, [expected umask preserve T] is the source tree seen as a file
    system with the modes the property allows. *)
+From Coq Require Import Permutation.
 From Oras Require Import Base.Prelude Generated.GC12 Model.TarRoundTrip Model.FileAnnotations
-  Proofs.TarRoundTrip Proofs.TarWalkOrder.
+  Proofs.TarRoundTrip Proofs.TarWalkOrder Proofs.TarListingOrder.
 
 (* Round trip, exactly as the current code behaves: every path of the restored directory
    is the path of the source tree -- same kind, bytes, link target, and mode (minus the umask
@@ -154,6 +155,21 @@ Print Assumptions C12_reproducible.
 Print Assumptions C12_file_roundtrip.
 Print Assumptions C12_file_push_verified.
 
+(* ... and regardless of the order in which any directory lists its entries:
+   [same_tree] relates two listings of the same tree (children permuted at every level). *)
+Theorem C12_reproducible_any_listing :
+  forall pre t1 t2,
+    same_tree (strip_times t1) (strip_times t2) -> wf_treeb (strip_times t1) = true ->
+    tar_entries pre true t1 = tar_entries pre true t2.
+Proof. exact reproducible_any_listing. Qed.
+Print Assumptions C12_reproducible_any_listing.
+
+Theorem C12_listing_order_irrelevant :
+  forall pre repro t t',
+    same_tree t t' -> wf_treeb t = true -> tar_entries pre repro t = tar_entries pre repro t'.
+Proof. exact listing_order_irrelevant. Qed.
+Print Assumptions C12_listing_order_irrelevant.
+
 (* The three annotations Add writes do not clobber each other (keys regenerated from
    content/file/file.go) and make Store.push unpack unless SkipUnpack. *)
 Theorem C12_annotations :
@@ -214,6 +230,14 @@ Example C12_nonvacuous :
     [ [b "d"]; [b "d"; b "a-rather-long-name.with.dots"]; [b "d"; b "sub"]; [b "d"; b "sub"; b "e"];
       [b "d"; b "sub"; b "empty"]; [b "d"; b "sub"; b "self"]; [b "d"; b "sub"; b "up"]; [b "d"; b "z"] ].
 Proof. vm_compute. repeat split; reflexivity. Qed.
+
+Example C12_nonvacuous_listing :
+  same_tree (Dir 493 0 [(b "b", File [] 420 0); (b "a", Link (b "b") 0)])
+            (Dir 493 0 [(b "a", Link (b "b") 0); (b "b", File [] 420 0)]).
+Proof.
+  eapply st_dir; [|apply perm_swap].
+  repeat constructor.
+Qed.
 
 Example C12_nonvacuous_machine :
   name_lookup (s_names (copy_into false true [(b "a", 1%nat)] [(b "a", 1%nat); (b "b", 1%nat)])) (b "b") = Some 1%nat.
